@@ -157,6 +157,10 @@ func run[T signal.SignalTypes](c *Case) (res kit.Result) {
 		}
 
 		h := kit.HdrOf(dst)
+		if m := kit.RawMismatch(dst, h); m != "" {
+			res.Failf("%s: destination %s", what, m)
+			return
+		}
 		if h.Len != oldLen+n {
 			res.Failf("%s: destination Len %d, want %d (+%d)", what, h.Len, oldLen+n, n)
 			return
